@@ -353,6 +353,8 @@ class FnVerifier:
         raise Unsupported("with-statement over %r" % (cmv,))
 
     def emit_log(self, R, evname, val):
+        if val.t.kind == "lref":
+            val = R.lref_value(val)  # an object in a list slot is logged by its current value
         st = T.Seq(val.t)
         cur = R.ghost.get(("log", evname))
         if cur is None:
@@ -613,6 +615,9 @@ class FnVerifier:
         for gk in list(R.ghost.keys()):
             if isinstance(gk, tuple) and gk[0] == "log" and (evs is None or gk[1] in evs):
                 R.ghost[gk] = fresh(R.ghost[gk].t, "log_" + gk[1].replace(".", "_"))
+        if evs is None:
+            # a callee whose events are unknown: every declared event may have been emitted (logs not yet started included)
+            evs = {ext.event for ext in self.c.externals.values() if ext.event}
         if evs:
             for e in evs:
                 if ("log", e) not in R.ghost:
